@@ -32,7 +32,7 @@ import (
 	"github.com/creachadair/jrpc2/server"
 )
 
-type brRun struct {
+type hcbRun struct {
 	mu     sync.Mutex
 	bridge jhttp.Bridge
 	parked []chan struct{}
@@ -43,7 +43,7 @@ type brRun struct {
 
 type brBody struct {
 	io.Reader
-	run    *brRun
+	run    *hcbRun
 	closed bool
 }
 
@@ -57,7 +57,7 @@ func (b *brBody) Close() error {
 	return nil
 }
 
-type brClient struct{ run *brRun }
+type brClient struct{ run *hcbRun }
 
 func (c brClient) Do(req *http.Request) (*http.Response, error) {
 	r := c.run
@@ -178,7 +178,7 @@ func runHcBridge(t *testing.T, fam string, seed uint64, idx int, out *bufio.Writ
 	synctest.Test(t, func(t *testing.T) {
 		lg := &logger{out: out}
 		lg.item("scenario\t%s\t%d\t%d\tq", fam, seed, idx)
-		r := &brRun{bridge: jhttp.NewBridge(brMethods(), nil)}
+		r := &hcbRun{bridge: jhttp.NewBridge(brMethods(), nil)}
 		hcli := jrpc2.NewClient(jhttp.NewChannel("http://br.test/", &jhttp.ChannelOptions{Client: brClient{r}}), nil)
 		loc := server.NewLocal(brMethods(), nil)
 		rounds := 1 + g.intn(4)
